@@ -249,6 +249,16 @@ def dispatchC08 : Dispatch := fun op args =>
       let e := bitTok (m1 == m2)
       some s!"{bitTok (paramsCtEq p q)} {bitTok (decide (val (uzero n) = val (uzero n)) && paramsCtEq p q)} ;; {e} {e}"
     | _, _, _ => badArgs
+  | "c08.params_select", [n, m1, m2, c, x] =>
+    -- selection between two parameter sets: every field of the chosen side; the selected form is the chosen side's
+    match n.toNat?, hexToNat? m1, hexToNat? m2, c.toNat?, hexToNat? x with
+    | some n, some m1, some m2, some c, some x =>
+      let m := if c % 2 = 1 then m2 else m1
+      let commas := fun (t : String) => t.replace " " ","
+      let v := x % m
+      let tok := fun (p : Params) => s!"{commas (paramsTok p)} 1 1 1 | {natToHex v} {natToHex (v * v % m)} {commas (paramsTok p)}"
+      some (tok (paramsNew (toLimbs n m)) ++ " ;; " ++ tok (paramsSpec n m))
+    | _, _, _, _, _ => badArgs
   | "c08.params_eq_const", [n, m] =>
     match n.toNat?, hexToNat? m with
     | some n, some m =>
